@@ -20,8 +20,8 @@ def latest : List Decl → Commodity → Commodity → Option Rat
     match latest ds a b with
     | some x => some x
     | none =>
-      if d.commodity = a ∧ d.target = b then some (recip d.price)
-      else if d.commodity = b ∧ d.target = a then some d.price
+      if a = d.commodity ∧ b = d.target then some (recip d.price)
+      else if a = d.target ∧ b = d.commodity then some d.price
       else none
 
 /-- follow a chain of commodities from `cur` (whose price is `x`), multiplying by the price of each
@@ -68,7 +68,10 @@ def directOK (e : Commodity → Commodity → Option Rat) (univ : List Commodity
 
 /-- clause 3: every price in the table is the truncated product along some chain from `v` -/
 def chainOK (e : Commodity → Commodity → Option Rat) (univ : List Commodity) (v : Commodity) (N : NPrices) : Bool :=
-  N.all (fun cx => reach e univ cx.1 cx.2 N.length [v] v 1)
+  (keys N).all (fun c =>
+    match find c N with
+    | some x => reach e univ c x N.length [v] v 1
+    | none => false)
 
 /-- clause 4: the table is closed under declarations, so (with clause 3) a commodity has a price
 exactly if it is connected to `v` -/
